@@ -96,6 +96,9 @@ func ctree(o slip.Object) (string, bool) {
 		return fmt.Sprintf("CInt (%d)%%Z", int64(t)), true
 	case *slip.Bignum:
 		return "CInt (" + (*big.Int)(t).String() + ")%Z", true
+	case slip.Float, *slip.Ratio:
+		// a token resolved to a float or a ratio: the model keeps the lexeme of a token and does not resolve it
+		return "CNum", true
 	case slip.String:
 		return "CStr " + common.GBytes([]byte(t)), true
 	case slip.Character:
